@@ -242,6 +242,16 @@ def run_case(sc, case, ctx):
         raise
     except BaseException as e:
         fr = _innermost_repo_frame(e.__traceback__)
+        if fr is None and isinstance(e, AttributeError) and str(getattr(e, "name", "") or "").startswith("_") \
+                and not str(e.name).startswith("__"):
+            o = getattr(e, "obj", None)
+            import types
+            mod = o.__name__ if isinstance(o, types.ModuleType) else getattr(o if isinstance(o, type) else type(o), "__module__", "")
+            if str(mod).startswith("ciderpress"):
+                # the harness reached for a private name of the package (a mechanism-level hook) that this tree does not
+                # have: private names are not part of any property, so the case is not decided - never an alarm
+                ctx.event("private_hook_missing:%s.%s" % (getattr(o if isinstance(o, type) else type(o), "__name__", "?"), e.name))
+                return None
         if fr is None or os.environ.get("VERIF_STRICT_HARNESS"):
             raise HarnessError("%s in sub-check %s: %s\n%s" % (type(e).__name__, sc.name, e, traceback.format_exc()))
         return {"sig": [sc.name, "exception", type(e).__name__, fr],
